@@ -582,3 +582,19 @@ package core
 //@   atmake [allocation_bounded_by_the_request] makecap <= decoder.tail - decoder.head
 //@   atcall AddReference [the_argument_list_itself_takes_a_reference_number_before_its_elements] decoder.simple || len(decoder.refer.ref) == 0
 //@   ensures [the_argument_list_is_numbered] !decoder.simple && !method_missing(typeof(method), ival(method)) && result1 == nil && len(result0) > 0 ==> len(decoder.refer.ref) >= 1
+
+// decoding a response on the client: whatever the server sent (the count of a result list is any
+// validated count, the bytes are arbitrary), no index into the caller's declared result types or
+// into the result slice can fail — a panic here would be in the caller's goroutine (C04, C11)
+//@ func NewDict
+//@   havoc
+//@ func (*ClientContext).ResponseHeaders
+//@   nopanic
+
+//@ func (clientCodec).Decode
+//@   prop C04 C11
+//@   havoc
+//@   requires context != nil
+//@   modifies ghost.rpos[*], ghost.rfailed[*], ghost.dict_has[*], ghost.dict_int[*]
+//@   loop 1 invariant 0 <= i && len(results) == n && len(returnType) == n && count >= 0 && decoder != nil && decoder.reader == nil && 0 <= decoder.head && decoder.head <= decoder.tail && decoder.tail <= len(decoder.buf)
+//@   loop 2 invariant 0 <= i && len(results) == n && len(returnType) == n
